@@ -88,11 +88,9 @@ impl Checker for C20Checker {
                             let a: usize = it.next().and_then(|x| x.parse().ok()).unwrap_or(usize::MAX);
                             let b: usize = it.next().and_then(|x| x.parse().ok()).unwrap_or(usize::MAX);
                             // positions index the braille with the current node highlighted
-                            let hl = match (before.nav.ok().map(|n| split_pair(n).0), true) {
-                                (Some(id), _) => s.call(&Op::Braille(IdRef::Lit(id))).ok().map(|x| x.chars().count()).unwrap_or(len),
-                                _ => len,
-                            };
-                            if !(a <= b && b <= hl.max(len)) {
+                            // (the snapshot holds normalised ids: resolve the real navigation id again)
+                            let hl = s.call(&Op::Braille(IdRef::Nav)).ok().map(|x| x.chars().count()).unwrap_or(len);
+                            if !(a <= b && b <= hl) {
                                 s.violation("position-out-of-range", "get_braille_position outside the braille string".into(), format!("start {} end {} length {} (highlighted {})", a, b, len, hl));
                             } else {
                                 s.probe("position_in_range");
@@ -185,12 +183,19 @@ pub fn random_trace(seed: u64) -> Trace {
         s.push(Step::Call(Op::SetPref("CheckRuleFiles".into(), "All".into())));
     }
     let n_valid = pools::VALID_EXPRS.len();
-    s.push(Step::Call(Op::SetMathml(ExprRef::Pool(rng.below(n_valid)))));
+    let first = if rng.chance(0.35) { ExprRef::Corpus(rng.below(pools::corpus().len())) } else { ExprRef::Pool(rng.below(n_valid)) };
+    s.push(Step::Call(Op::SetMathml(first)));
     let n = rng.range(6, 60);
     for _ in 0..n {
         match rng.below(20) {
             0..=4 => s.push(Step::Call(Op::Cmd(crate::props::c11::random_nav_command(&mut rng)))),
-            5 => s.push(Step::Call(Op::SetMathml(if rng.chance(0.85) { ExprRef::Pool(rng.below(n_valid)) } else { ExprRef::Bad(rng.below(pools::INVALID_EXPRS.len())) }))),
+            5 => s.push(Step::Call(Op::SetMathml(if rng.chance(0.3) {
+                ExprRef::Corpus(rng.below(pools::corpus().len()))
+            } else if rng.chance(0.85) {
+                ExprRef::Pool(rng.below(n_valid))
+            } else {
+                ExprRef::Bad(rng.below(pools::INVALID_EXPRS.len()))
+            }))),
             6 => s.push(Step::Call(Op::SetPref("BrailleNavHighlight".into(), rng.pick(pools::HIGHLIGHT).to_string()))),
             7 => s.push(Step::Call(Op::SetPref("BrailleCode".into(), rng.pick(CODES).to_string()))),
             8..=11 => {
@@ -264,6 +269,30 @@ pub fn directed(all: bool) -> Vec<Trace> {
             t.sessions = vec![s];
             v.push(t);
         }
+    }
+    // corpus expressions (from the repository's tests): every id and the first 40 cells, codes and styles cycling
+    let n_corpus = if all { 210 } else { 28 };
+    for i in 0..n_corpus {
+        let code = CODES[i % CODES.len()];
+        let hl = pools::HIGHLIGHT[(i / CODES.len()) % pools::HIGHLIGHT.len()];
+        let mut t = Trace::new("C20", "C20");
+        t.origin = format!("directed corpus all-ids-all-cells #{} {} {}", i, code, hl);
+        let mut s = vec![Step::Call(Op::SetRulesDir(MOUNT_A.into())), Step::Call(Op::SetPref("BrailleCode".into(), code.to_string())), Step::Call(Op::SetPref("BrailleNavHighlight".into(), hl.to_string()))];
+        for j in 0..3 {
+            s.push(Step::Call(Op::SetMathml(ExprRef::Corpus(i * 7 + j * 499))));
+            for k in 0..30 {
+                s.push(Step::Call(Op::Braille(IdRef::Nth(k))));
+            }
+            for k in 0..40 {
+                s.push(Step::Call(Op::NodeFromPos(PosRef::Abs(k))));
+            }
+            for c in ["ZoomIn", "MoveNext", "ZoomIn", "MoveEnd"] {
+                s.push(Step::Call(Op::Cmd(c.into())));
+                s.push(Step::Call(Op::BraillePos));
+            }
+        }
+        t.sessions = vec![s];
+        v.push(t);
     }
     // restoration on the error path: a read error inside routing with the user's highlight style Off
     for code in ["Nemeth", "UEB"] {
